@@ -99,7 +99,10 @@ def check_c01(out, wire):
     if not (isinstance(out, tuple) and len(out) == 2):
         raise Violation('return-shape', out)
     text, codes = out
-    doc = wire.decode(text)
+    try:
+        doc = wire.decode(text)
+    except ValueError as e:
+        raise Violation('response-text-not-json', str(e)[:100])
     why = wf_response_document(doc)
     if why:
         raise Violation('malformed:' + why, doc)
